@@ -176,6 +176,9 @@ func (t *Transport) encodeToWithCompression(wr io.Writer, bs []byte) (int, error
 	return int(n), err
 }
 
+// minWriteDictLen is the shortest history used as a preset dictionary when compressing (see encodeToWithContextTakeover).
+const minWriteDictLen = 1024
+
 func (t *Transport) encodeToWithContextTakeover(wr io.Writer, bs []byte) (int, error) {
 	buf := bufferPool.Get().(*bytes.Buffer)
 	defer func() {
@@ -186,7 +189,14 @@ func (t *Transport) encodeToWithContextTakeover(wr io.Writer, bs []byte) (int, e
 	t.writeWindowBufMu.Lock()
 	defer t.writeWindowBufMu.Unlock()
 
-	fwr, err := flate.NewWriterDict(buf, t.compressConfig.Level, t.writeWindowBuf.Bytes())
+	dict := t.writeWindowBuf.Bytes()
+	if len(dict) < minWriteDictLen {
+		// compress/flate emits a preset dictionary as message data when it falls back to a stored
+		// block (tiny dictionary, incompressible message). Without a dictionary the output is still
+		// decodable by a peer that keeps its window, so short histories are simply not used.
+		dict = nil
+	}
+	fwr, err := flate.NewWriterDict(buf, t.compressConfig.Level, dict)
 	if err != nil {
 		return 0, err
 	}
